@@ -133,6 +133,7 @@ type Program struct {
 	Prog      *ssa.Program
 	Stubs     map[string]*ssa.Function // qualified target -> stub function
 	Guards    map[string]*ssa.Function // qualified target -> guard (stub applies only when it returns true)
+	EngineOnly map[string]bool         // stubs of dependency code (not applied in native replay)
 	FuncHash  func(fn *ssa.Function) string
 	RepoPath  string
 	runtimeES interface{}
@@ -653,8 +654,12 @@ func (m *machine) obligation(cond value, tag string) {
 		m.assume(term)
 		return
 	}
-	m.violated(tag, tNot(term), "")
+	isNew := m.violated(tag, tNot(term), "")
 	if isConc {
+		if !isNew {
+			// only a listed finding: keep exploring the rest of the path
+			return
+		}
 		panic(pathEnd{"abort", "assertion " + tag + " failed"})
 	}
 	if m.sol.CheckWith(term) != "sat" {
@@ -689,7 +694,7 @@ func (m *machine) keepScript(extra, verdict, tag string) {
 }
 
 // violated handles a failed obligation: negTerm is satisfiable with the pc.
-func (m *machine) violated(tag, negTerm, detail string) {
+func (m *machine) violated(tag, negTerm, detail string) (isNew bool) {
 	// known classes for this tag
 	residual := negTerm
 	type hit struct {
@@ -721,16 +726,16 @@ func (m *machine) violated(tag, negTerm, detail string) {
 	}
 	if len(cands) > 0 {
 		if residual == "false" {
-			return
+			return false
 		}
 		if residual != "true" {
 			r := m.sol.CheckWith(residual)
 			if r == "unsat" {
-				return
+				return false
 			}
 			if r == "unknown" {
 				m.inconclusive("INCONCLUSIVE solver unknown on known-finding residual " + tag)
-				return
+				return false
 			}
 		}
 	}
@@ -755,6 +760,7 @@ func (m *machine) violated(tag, negTerm, detail string) {
 		m.res.Violations = append(m.res.Violations, v)
 	}
 	m.res.mu.Unlock()
+	return true
 }
 
 func tagMatch(pat, tag string) bool {
